@@ -29,6 +29,10 @@ Bases == <<
   [req |-> "get",  segs |-> <<St("1.0", "200", "OK"), Fd("Server", "x"), Bl, Dt(6)>>],
   [req |-> "head", segs |-> <<St("1.1", "204", "No Content"), Fd("Content-Length", "9"), Bl>>],
   [req |-> "post10-close-expect", segs |-> <<St("1.1", "417", "No"), Fd("Connection", "close"), Fd("X-A", "b"), Bl, Dt(3)>>],
+  \* an ordinary login: POST with credentials, cookie and content description, answered by See Other (then followed)
+  [req |-> "post-login", segs |-> <<St("1.1", "303", "See Other"), Fd("Location", "/welcome"), Fd("Content-Length", "0"), Bl,
+                                    St("1.1", "302", "Found"), Fd("Location", "http://b.test/home"), Fd("Content-Length", "0"), Bl,
+                                    St("1.1", "200", "OK"), Fd("Content-Length", "2"), Bl, Dt(2)>>],
   \* the caller gives up waiting for 100-continue and sends the body: the 100 arrives late, in the receive state
   [req |-> "post-expect-giveup", segs |-> <<St("1.1", "100", "Continue"), Bl, St("1.1", "200", "OK"), Bl, Dt(3)>>],
   \* interim responses with fields, every one of them asking to close the connection
